@@ -476,7 +476,8 @@ def r19_9(ctx):
     """R19.9 an explicitly passed rename file is a source of names whatever its target suffix: the test by which
     _prepare_deprecated_options() tells rename files from files to check, folded for the paths `/p/sdkconfig.rename`,
     `/p/sdkconfig.rename.esp32` (rename files) and `/p/sdkconfig.defaults`, `/p/sdkconfig.ci.x` (files to check), classifies them so -
-    a target-specific rename file that is *checked* instead is reported OK and its names are never applied to the defaults files."""
+    a target-specific rename file that is *checked* instead is reported OK and its names are never applied to the defaults files; the
+    directory part of the path plays no role (`/p/sdkconfig.rename_demo/sdkconfig.defaults` is a file to check: fixed defect 5.52)."""
     from ..foldcheck import Unfoldable, fold_str_expr
     from .common import expand_locals
     repo = ctx.repo
@@ -488,7 +489,8 @@ def r19_9(ctx):
         raise AnchorError("_prepare_deprecated_options: the explicit-rename-file arm was not found")
     lp, arm = tests[0]
     test = ast.parse(expand_locals(f.node, arm.test), mode="eval").body
-    for w, want in (("/p/sdkconfig.rename", True), ("/p/sdkconfig.rename.esp32", True), ("/p/sdkconfig.defaults", False), ("/p/sdkconfig.ci.x", False)):
+    for w, want in (("/p/sdkconfig.rename", True), ("/p/sdkconfig.rename.esp32", True), ("/p/sdkconfig.defaults", False), ("/p/sdkconfig.ci.x", False),
+                    ("/p/sdkconfig.rename_demo/sdkconfig.defaults", False), ("/p/sdkconfig.rename_demo/sdkconfig.rename", True)):
         construct = f"_prepare_deprecated_options/explicit file `{w}` is {'a rename file' if want else 'a file to check'}"
         try:
             got = bool(fold_str_expr(test, {lp.target.id: w}))
@@ -500,4 +502,4 @@ def r19_9(ctx):
 
 
 def rules():
-    return [("R19.9", r19_9, 4), ("R19.8", r19_8, 2), ("R19.7", r19_7, 3), ("R19.6", r19_6, 1), ("R19.1", r19_1, 3), ("R19.2", r19_2, 7), ("R19.3", r19_3, 4), ("R19.4", r19_4, 3), ("R19.5", r19_5, 8)]
+    return [("R19.9", r19_9, 6), ("R19.8", r19_8, 2), ("R19.7", r19_7, 3), ("R19.6", r19_6, 1), ("R19.1", r19_1, 3), ("R19.2", r19_2, 7), ("R19.3", r19_3, 4), ("R19.4", r19_4, 3), ("R19.5", r19_5, 8)]
